@@ -127,6 +127,11 @@ func (p *Program) verifyFunction(name string, tier string, prop string, sink fun
 		entryFrame.env[fv] = binds[i]
 	}
 	s.frames = []*Frame{entryFrame}
+	// fnself: the identity of the function value under verification (for ghost flags keyed by it)
+	if x.thisFn.S == "" {
+		x.thisFn = x.fresh(s, "thisfn", SInt)
+	}
+	entryFrame.lets["fnself"] = scalar(x.thisFn)
 	// what the captured variables hold at entry is well-typed and already exists
 	for i, fv := range f.FreeVars {
 		et := fv.Type().(*types.Pointer).Elem()
@@ -306,6 +311,11 @@ func (x *Exec) fieldEnv(s *State, fieldC *FuncContract, f *ssa.Function, args []
 			env.vars[pn] = sval{v: args[off+i], typ: params[off+i].Type()}
 		}
 	}
+	// fnself: the function value itself (for a closure under verification: some function value)
+	if x.thisFn.S == "" {
+		x.thisFn = x.fresh(s, "thisfn", SInt)
+	}
+	env.vars["fnself"] = sval{v: scalar(x.thisFn), typ: f.Signature}
 	rt := f.Signature.Results()
 	if results != nil {
 		if rt.Len() == 1 {
